@@ -152,7 +152,7 @@ def _float_abs_args(t):
     return out
 
 
-@rule("R-SIGN-CARRIER", ["C16", "C19", "C20"])
+@rule("R-SIGN-CARRIER", ["C16", "C19", "C20", "C13"])
 def r_sign_carrier(cx):
     """Where an angle is assembled as  sign * (|X| + minutes/60 + ...)  from a floating point field X, the sign is
     taken from X's sign bit (signum, copysign, is_sign_negative) - not from an ordered comparison: X = -0.0 (as in
@@ -202,6 +202,52 @@ def r_sign_carrier(cx):
                       else "%s builds sign * (|x| + ...) but derives the sign from a comparison of x with zero (or not "
                            "from x at all): for x = -0.0 (`-0:30`) the sign is lost" % name, cx.where(f.d["span"]))
     cx.count("R-SIGN-CARRIER", "assembled_angles", n)
+    # the hemisphere letter: every value parse_sexagesimal returns (other than NaN) carries the sign taken from the
+    # suffix - plain decimals with a letter (`9.5W`) as well as D:M:S values
+    if cx.f.has_fn("math::angular::parse_sexagesimal"):
+        f = cx.f.fn("math::angular::parse_sexagesimal")
+        rt = E.return_term(f)
+        leaves = []
+
+        def lv(x, d=0):
+            x = mir.strip_refs(x)
+            if x[0] == "phi" and d < 12:
+                for o in x[2]:
+                    lv(o, d + 1)
+            else:
+                leaves.append(x)
+        if rt is not None:
+            lv(rt)
+
+        def is_pm_one(y):
+            if y[0] != "phi":
+                return False
+            vals = set()
+            for o in y[2]:
+                o = mir.strip_refs(o)
+                vv = _fnum(o)
+                if vv is None:
+                    return False
+                vals.add(vv)
+            return vals == {1.0, -1.0}
+        bad = []
+        valued = 0
+        for lf in leaves:
+            vv = _fnum(lf)
+            if vv is not None and vv != vv:
+                continue        # NaN: rejected text
+            if lf[0] == "const" and "NAN" in str(lf[2]).upper():
+                continue
+            valued += 1
+            hit = []
+            mir.walk(lf, lambda y: (hit.append(1) if isinstance(y, tuple) and y and is_pm_one(y) else None) or True)
+            if not hit:
+                bad.append(lf)
+        ok = valued > 0 and not bad
+        cx.ob("R-SIGN-CARRIER", "math::angular::parse_sexagesimal/suffix", ok,
+              "every value parse_sexagesimal returns is multiplied by the sign of the hemisphere letter" if ok else
+              "parse_sexagesimal returns a value that does not carry the sign taken from the N/S/E/W suffix (the letter is "
+              "stripped, the sign dropped): `lon_0=9.5W` reads as +9.5", cx.where(f.d["span"]))
     # the packed ISO 6709 encodings: f64 -> f64 converters are odd functions, written as signum(x) * g(|x|)
     k = 0
     for name in sorted(cx.f.lib["fns"]):
@@ -227,7 +273,29 @@ def r_sign_carrier(cx):
                 s0 = mir.strip_refs(side)
                 if s0[0] == "call" and isinstance(s0[1], str) and s0[1].endswith(SIGN_FNS) and s0[2] and \
                         mir.strip_refs(s0[2][0]) == ("arg", 1):
-                    ok = True
+                    other = rt[3] if side is rt[2] else rt[2]
+                    # ... and the magnitude g depends on x through |x| only (x.fract(), x % 1.0 keep the sign of x)
+                    raw = []
+
+                    def scan(y, depth=0):
+                        y = mir.strip_refs(y)
+                        if depth > 60 or raw:
+                            return
+                        if y == ("arg", 1):
+                            raw.append(1)
+                            return
+                        if y[0] == "call" and isinstance(y[1], str) and y[1].rsplit("::", 1)[-1] in ("abs",) and y[2] and \
+                                mir.strip_refs(y[2][0]) == ("arg", 1):
+                            return
+                        for z in y[1:]:
+                            if isinstance(z, tuple) and z and isinstance(z[0], str):
+                                scan(z, depth + 1)
+                            elif isinstance(z, tuple):
+                                for w in z:
+                                    if isinstance(w, tuple) and w and isinstance(w[0], str):
+                                        scan(w, depth + 1)
+                    scan(other)
+                    ok = not raw
         cx.ob("R-SIGN-CARRIER", name + "/odd", ok,
               "%s = signum(x) * g(|x|): the sign bit of the input is the sign of the result" % name if ok else
               "%s is not of the form signum(x) * g(|x|): the sign of an input with zero whole degrees (e.g. -0030.6) "
